@@ -694,7 +694,7 @@ def c07_prepare(ix, f, body, rule, tabs, right_names):
         seen |= a.toks
         rassoc = br[bi]["kind"] == "leftright" and bool(a.toks & right_names)
         lbp, rbp = pratt.powers(n, bi, br[bi]["kind"], rassoc)
-        ifs = [s for s in a.body if s.kind == "if" and re.fullmatch(r"\d+\s*<\s*min_bp", s.cond.strip())]
+        ifs = [s for s in a.body if s.kind == "if" and re.fullmatch(r"\d+\s*\S{1,2}\s*min_bp", s.cond.strip())]
         recs = [s for s in a.body if s.kind == "rec"]
         if len(ifs) != 1 or a.body[0] is not ifs[0]:
             return None, "unexpected shape: operator arm does not start with the binding-power test"
